@@ -608,7 +608,8 @@ def binop(op, a, b, need):
         if not z3.is_rational_value(z3.simplify(y)):
             # sign facts about a quotient by a symbolic divisor (help the nonlinear solver)
             need(z3.And(z3.Implies(z3.And(x >= 0, y > 0), q >= 0), z3.Implies(z3.And(x <= 0, y > 0), q <= 0),
-                        z3.Implies(z3.And(x > 0, y > 0), q > 0)), "__assume__")
+                        z3.Implies(z3.And(x > 0, y > 0), q > 0), z3.Implies(z3.And(x <= y, y > 0), q <= 1),
+                        z3.Implies(z3.And(x >= y, y > 0), q >= 1)), "__assume__")
         return SFloat(q)
     if op == "//":
         need(y != 0, "ZeroDivisionError")
